@@ -324,6 +324,13 @@ func main() {
 				fmt.Sprintf("VERIF_SHARD=%d", j.shard), fmt.Sprintf("VERIF_SHARDS=%d", j.tc.Shards), fmt.Sprintf("VERIF_CASES=%d", j.tc.Checks),
 				"VERIF_REPLAY_OUT="+filepath.Join(outDir, "replay"), "VERIF_REPLAY=")
 			cmd.Env = append(cmd.Env, j.leg.Env...)
+			// every worker gets its own temporary directory, removed when it has ended: the code
+			// under test leaves files behind (an empty priv_validator_* per generated signer, WAL
+			// directories of abandoned nodes)
+			if td, terr := os.MkdirTemp("", fmt.Sprintf("vcheck-%s-%s-%d-", id, j.leg.Name, j.shard)); terr == nil {
+				cmd.Env = append(cmd.Env, "TMPDIR="+td)
+				defer os.RemoveAll(td)
+			}
 			if j.leg.DeathIsViolation {
 				cmd.Env = append(cmd.Env, "VERIF_TRACK_CASE=1")
 				os.Remove(evOut + ".cur")
@@ -747,6 +754,10 @@ func runReplay(id string, cfg checkCfg, bin, path string) (string, []violation, 
 	cmd := exec.CommandContext(ctx, bin, "-test.run", "^"+leg.Test+"$", "-test.count=1", "-test.timeout", "280s")
 	cmd.Dir = filepath.Join(verifDir, "checks", strings.ToLower(id))
 	cmd.Env = append(goEnv(), "VERIF_REPLAY="+path, "VERIF_EV_OUT=", "VERIF_TIER=quick")
+	if td, terr := os.MkdirTemp("", "vcheck-"+id+"-replay-"); terr == nil {
+		cmd.Env = append(cmd.Env, "TMPDIR="+td)
+		defer os.RemoveAll(td)
+	}
 	cmd.Env = append(cmd.Env, leg.Env...)
 	var out bytes.Buffer
 	cmd.Stdout = &out
